@@ -15,7 +15,18 @@ from .fold import TOP, mk_int
 from . import peval
 from .peval import _deref_all
 from .rules_tables import where_fn
-from .rules_wasm_pe import _norm, _variant, _show
+from .rules_wasm_pe import _norm, _variant, _show, NotComparable
+
+
+def _abstain_if_not_comparable(fn):
+    def w(ctx, f, rid=None, **kw):
+        try:
+            return fn(ctx, f, **({"rid": rid} if rid else {}), **kw)
+        except NotComparable as e:
+            ctx.abstain(rid or fn.__defaults__[0], "values not comparable: %s" % e)
+            return None
+    w.__defaults__ = (fn.__defaults__[0],)
+    return w
 
 BUILDERS = {
     # configuration -> [(builder type, initial-value constructor, constructor args builder)]
@@ -60,6 +71,7 @@ def _setters(f, adt):
     return sorted(out, key=lambda x: x.path)
 
 
+@_abstain_if_not_comparable
 def c14_p7(ctx, f, rid="C14.P7"):
     ctx.rule(rid, "setter algebra by partial evaluation: on the builder's initial value every setter obeys `last value wins` and every "
                   "pair of setters commutes (list-appenders excepted), with two distinct values per parameter; build hands QRCode::new "
@@ -231,6 +243,7 @@ def _build_uses_final_values(ctx, rid, f, pe, S0, calls, apply, und):
     return 1 if ok else 0
 
 
+@_abstain_if_not_comparable
 def c13_r3(ctx, f, rid="C13.R3"):
     """ImageBuilder's Builder methods act on the inner SvgBuilder exactly as the SvgBuilder's own methods do"""
     ctx.rule(rid, "option forwarding by partial evaluation: every Builder method of ImageBuilder, applied to the default builder with "
